@@ -44,6 +44,7 @@ func coqCase(ctx *hx.Ctx, c Case, o Obs) (term, key string, nontrivial bool) {
 
 func corpus() []Case {
 	cs := footerCorpus()
+	cs = append(cs, footerSweep()...)
 	cs = append(cs, readCorpus()...)
 	cs = append(cs, treeCorpus()...)
 	return cs
